@@ -55,9 +55,6 @@ func VerifC07_DecodeStrict() {
 		verifAssert(verifMatches(`\A[0-9a-f]{64}\z`, e.Oid), "extension oid is 64 lower-case hex digits")
 		last = e.Priority
 	}
-	if len(p.Extensions) > 0 {
-		verifCover("with-extensions")
-	}
 	spec := verifSpecEncoding(p)
 	verifObserve("canonical", p.Canonical)
 	verifAssert(p.Canonical == (string(s) == spec), "Canonical is reported exactly for the canonical encoding")
@@ -77,11 +74,21 @@ func VerifC07_DecodeStrict() {
 // such decomposition, so nothing but the stated bounds (and the edge-byte
 // restriction of the "trimmed" class) is excluded.
 func verifPointerLikeInput(maxLines, maxLine int) string {
+	return verifPointerLikeInputT(maxLines, maxLine, true)
+}
+
+// verifPointerLikeInputT: as above; withTrail=false leaves out the trailing
+// white space (for callers that append more content).
+func verifPointerLikeInputT(maxLines, maxLine int, withTrail bool) string {
 	lead := verifNondetString("lead")
-	trail := verifNondetString("trail")
+	trail := ""
+	if withTrail {
+		trail = verifNondetString("trail")
+		verifAssumeClass(trail, "asciiws")
+		verifAssume(len(trail) <= 3)
+	}
 	verifAssumeClass(lead, "asciiws")
-	verifAssumeClass(trail, "asciiws")
-	verifAssume(len(lead) <= 3 && len(trail) <= 3)
+	verifAssume(len(lead) <= 3)
 	n := verifChoose("lines", maxLines+1)
 	core := ""
 	for k := 0; k < n; k++ {
@@ -163,4 +170,45 @@ func VerifC07_RoundTrip() {
 			verifAssert(q.Extensions[k].Name == exts[k].Name && q.Extensions[k].Priority == exts[k].Priority && q.Extensions[k].Oid == exts[k].Oid, "decoding returns the same extensions in priority order")
 		}
 	}
+}
+
+// VerifC07_ExtensionLines: pointer-shaped input with up to three extension
+// lines whose priority digits, names and oids are arbitrary: an accepted
+// pointer has unique ascending priorities and is canonical exactly for the
+// canonical text.
+func VerifC07_ExtensionLines() {
+	text := "version https://git-lfs.github.com/spec/v1\n"
+	n := 1 + verifChoose("ext.lines", verifBound("ext.lines", 2, 3))
+	for k := 0; k < n; k++ {
+		d := verifNondetString("ext.digit")
+		verifAssume(len(d) == 1)
+		verifAssumeAlphabet(d, "09")
+		name := verifNondetString("ext.name")
+		verifAssume(len(name) >= 1 && len(name) <= 4)
+		verifAssumeAlphabet(name, "az")
+		eoid := verifNondetString("ext.oid")
+		verifAssumeAlphabet(eoid, "09af")
+		verifAssume(len(eoid) == 64)
+		text += "ext-" + d + "-" + name + " sha256:" + eoid + "\n"
+	}
+	oid := verifNondetString("oid")
+	verifAssumeAlphabet(oid, "09af")
+	verifAssume(len(oid) == 64)
+	size := verifNondetString("size")
+	verifAssumeAlphabet(size, "09")
+	verifAssume(len(size) >= 1 && len(size) <= 12)
+	text += "oid sha256:" + oid + "\nsize " + size + "\n"
+	p, err := DecodePointer(bytes.NewReader([]byte(text)))
+	if err != nil {
+		verifCover("ext-rejected")
+		return
+	}
+	verifCover("ext-accepted")
+	verifAssert(len(p.Extensions) >= 1 && len(p.Extensions) <= n, "extensions come from the extension lines")
+	last := -1
+	for _, e := range p.Extensions {
+		verifAssert(e.Priority > last, "extension priorities are unique and ascending")
+		last = e.Priority
+	}
+	verifAssert(p.Canonical == (text == verifSpecEncoding(p)), "Canonical is reported exactly for the canonical encoding")
 }
